@@ -46,7 +46,7 @@ struct Sys
 	std::unique_ptr<ip::tcp::socket> T[2]; std::unique_ptr<ip::tcp::acceptor> Acc; std::unique_ptr<ip::udp::socket> U[2];
 	std::unique_ptr<ip::tcp::socket> ACC; // the socket last accepted on A0
 	std::unique_ptr<ip::tcp::acceptor> BL; std::vector<std::unique_ptr<ip::tcp::socket>> Bacc, Bcli; std::unique_ptr<ip::tcp::socket> Bnext;
-	std::unique_ptr<ip::udp::socket> BU;
+	std::unique_ptr<ip::udp::socket> BU, BU2; // BU2: peer socket that puts a datagram in flight right before an op
 	// model
 	MSock m[NOBJ]; bool acc_alive = false;
 	std::map<std::string, std::string> treg, ureg; // "addr:port" -> owner name
@@ -65,10 +65,11 @@ struct Sys
 		BL.reset(new ip::tcp::acceptor(*B)); BL->open(ip::tcp::v4()); BL->bind(ip::tcp::endpoint(addr("10.0.0.9"), 7000)); BL->listen();
 		treg["10.0.0.9:7000"] = "BL";
 		arm_bl();
+		BU2.reset(new ip::udp::socket(*B)); BU2->open(ip::udp::v4()); BU2->bind(ip::udp::endpoint(addr("10.0.0.9"), 6998)); BU2->non_blocking(true); ureg["10.0.0.9:6998"] = "BU2";
 	}
 	~Sys()
 	{
-		Bnext.reset(); Bacc.clear(); Bcli.clear(); BL.reset(); BU.reset(); ACC.reset();
+		Bnext.reset(); Bacc.clear(); Bcli.clear(); BL.reset(); BU.reset(); BU2.reset(); ACC.reset();
 		for (int i = 0; i < 2; ++i) { T[i].reset(); U[i].reset(); } Acc.reset();
 		A.reset(); B.reset(); sim.reset();
 	}
@@ -86,6 +87,7 @@ struct Sys
 		if (p == ACC.get()) return "ACC";
 		if (p == static_cast<ip::tcp::socket*>(BL.get())) return "BL";
 		if (p == BU.get()) return "BU";
+		if (p == BU2.get()) return "BU2";
 		for (size_t i = 0; i < Bcli.size(); ++i) if (p == Bcli[i].get()) return "Bcli" + std::to_string(i);
 		for (size_t i = 0; i < Bacc.size(); ++i) if (p == Bacc[i].get()) return "Bacc" + std::to_string(i);
 		if (p == Bnext.get()) return "Bnext";
@@ -130,6 +132,25 @@ struct Sys
 	}
 
 	void apply(Op const& op)
+	{
+		// "datagrams addressed to an endpoint never reach a socket that no longer holds that binding": a datagram is in flight
+		// towards the object's endpoint while the op is applied (the network adds 1 ms)
+		bool inflight = false; std::string inflight_ep;
+		if (!is_tcp(op.o) && m[op.o].bound && m[op.o].v4 && addr(m[op.o].addr.c_str()).is_v4() && (op.k == OPEN4 || op.k == OPEN6 || op.k == CLOSE || op.k == DESTROY || op.k == MOVE)) {
+			error_code e0; char c = 'F'; BU2->send_to(asio::buffer(&c, 1), ip::udp::endpoint(addr(m[op.o].addr.c_str()), (unsigned short)m[op.o].port), 0, e0);
+			inflight = !e0; inflight_ep = k(m[op.o].addr, m[op.o].port);
+		}
+		apply_op(op);
+		// after the op (and quiescence): a socket that is bound may have received it (only a move keeps the binding); nobody else may hold it
+		for (Obj o : { U0, U1 }) {
+			ip::udp::socket* u = usock(o); std::size_t drained = 0;
+			if (m[o].open && m[o].bound) { u->non_blocking(true); for (;;) { char b[8]; ip::udp::endpoint from; error_code e1; u->receive_from(asio::buffer(b), from, 0, e1); if (e1) break; ++drained; } }
+			std::size_t const want = (inflight && o == op.o && op.k == MOVE) ? 1 : 0;
+			if (drained != want) fail(fmt("inflight: a datagram was on its way to %s while %s; afterwards %s had %zu datagram(s) to read, expected %zu", inflight_ep.c_str(), log.empty() ? "?" : log.back().c_str(), ONAME[o], drained, want));
+			if (!(m[o].open && m[o].bound) && !u->m_incoming_queue.empty()) fail(fmt("inflight: %s is %s but holds %zu queued datagram(s) after %s (a datagram was on its way to %s)", ONAME[o], m[o].open ? "not bound" : "closed", u->m_incoming_queue.size(), log.empty() ? "?" : log.back().c_str(), inflight_ep.c_str()));
+		}
+	}
+	void apply_op(Op const& op)
 	{
 		MSock& s = m[op.o]; error_code ec;
 		std::string what = std::string(ONAME[op.o]) + ".";
